@@ -177,6 +177,20 @@ pub open spec fn pedersen_fold(s: Seq<nat>, n: nat) -> nat decreases n {
 pub fn hoisted_fold_pedersen_refs(program: &Vec<&Felt>) -> (r: Felt)
     ensures r@ == pedersen_fold(program@.map_values(|f: &Felt| f@), program@.len()),
 { unimplemented!() }
+/// POSITIONAL reading of the returned hashes (what the code computes; the address-based reading of C14 is a separate clause):
+/// program = the values of the first min(initial_fp - 3, page length) main-page cells; output = the values of the last
+/// (output_stop - output_start) cells; each hashed as a Pedersen chain from 0, finished with the count
+pub open spec fn program_hash_spec(pi: &PublicInput) -> nat {
+    let flat = page_flat(pi.main_page.0@);
+    let n_take = fsub(fsub(pi.segments@[1].begin_addr@, 2), 1);
+    let n = sst_len(flat.len(), 1, n_take);
+    pedersen(pedersen_fold(Seq::new(n, |i: int| flat[1 + 2 * i]), n), n)
+}
+pub open spec fn output_hash_spec(pi: &PublicInput) -> nat {
+    let flat = page_flat(pi.main_page.0@);
+    let k = fsub(pi.segments@[2].stop_ptr@, pi.segments@[2].begin_addr@);
+    pedersen(pedersen_fold(odd_elems(flat.subrange(flat.len() - 2 * k, flat.len() as int)), k), k)
+}
 /// the odd-position elements s[1], s[3], ...
 pub open spec fn odd_elems(s: Seq<nat>) -> Seq<nat> { Seq::new(s.len() / 2, |i: int| s[2 * i + 1]) }
 #[verifier::external_body]
